@@ -8,6 +8,7 @@ package main
 // evaluated on the implementation's outputs.
 
 import (
+	"bytes"
 	"encoding/json"
 	"fmt"
 	"math"
@@ -780,6 +781,9 @@ func runC19(c *run.Ctx, s *kit.Summary) {
 		ks = append(ks, k)
 	}
 	runCases(c, s, "cmdline", ks)
+
+	// the real attack command against raw TCP listeners: what reaches the wire
+	runE2E(c, s, r)
 }
 
 // rateCaseOfText: what the manual says a -rate text means (N, N/unit, N/D, the special words).
@@ -817,6 +821,10 @@ func rateCaseOfText(t string) gen.RateCase {
 
 // replay: {"input": {"op":…, "args_hex":[…], "args_text":[…]}} — re-run that one case with the stream's oracle.
 func replay(c *run.Ctx, s *kit.Summary) {
+	if raw, err := os.ReadFile(c.Replay); err == nil && bytes.Contains(raw, []byte(`"op": "e2e"`)) || bytes.Contains(raw, []byte(`"op":"e2e"`)) {
+		replayE2E(c, s, raw)
+		return
+	}
 	k, op := loadCase(c.Replay)
 	s.Case("replay", true)
 	runCases(c, s, op, []*kase{k})
